@@ -1,7 +1,7 @@
 (* C20 — comments reach docstrings intact; whitespace clean-up never changes code meaning.
    Only statements, closed by [exact], each followed by Print Assumptions. *)
 From GV Require Import Base.Str Gen.C20Lit Model.FixWs Model.Wrap Proofs.RxLemmas Proofs.FixWs Proofs.FixWsRuns Proofs.FixWsIdem Proofs.C20Pins
-  Proofs.Words Proofs.TwWrap Proofs.Wrap Proofs.WrapWidth Proofs.WrapFit.
+  Proofs.Words Proofs.TwWrap Proofs.Wrap Proofs.WrapWidth Proofs.WrapFit Proofs.WrapFull Proofs.RstSafe.
 Local Open Scope nat_scope.
 
 (* T0: the pins of Proofs/C20Pins.v are boolean comparisons against Gen/C20Lit.v, evaluated by the harness on every run. *)
@@ -82,64 +82,74 @@ Theorem C20_wrap_total : forall text width offset indent, wrap text width offset
 Proof. exact wrap_total. Qed.
 Print Assumptions C20_wrap_total.
 
-(* ---- gapic.utils.lines.wrap ---- *)
-(* words, full strength under the hypothesis that the first line fits (textwrap.wrap is then not called on it and the
-   slice is exact): nothing is dropped, duplicated or reordered *)
-Theorem C20_wrap_words_preserved_first_line_fits : forall text width offset indent out,
-  first_line_fits text width offset = true ->
+(* ---- gapic.utils.lines.wrap (with the prologue of the fix: tabs expanded, leading blanks dropped) ---- *)
+(* FULL strength: whenever wrap returns a string, its words (str.split()) are exactly the words of the comment, in order:
+   nothing is dropped, duplicated or reordered.  No hypothesis on the text, the width, the offset or the indent. *)
+Theorem C20_wrap_words_preserved : forall text width offset indent out,
   wrap text width offset indent = Ok out -> pywords out = pywords text.
-Proof. exact wrap_words_preserved_fit. Qed.
-Print Assumptions C20_wrap_words_preserved_first_line_fits.
+Proof. exact wrap_words_preserved. Qed.
+Print Assumptions C20_wrap_words_preserved.
 
-Example C20_first_line_fits_example :
-  first_line_fits "Fetches a thing. Note:
- the caller should then create it, and this second line is long enough to be re-flowed." 72 11 = true.
-Proof. exact first_line_fits_example. Qed.
-Print Assumptions C20_first_line_fits_example.
-
-(* PARTIAL (words): everything after the first-line slice is re-flowed without loss, duplication or reordering, for every
-   input; missing: words(first) ++ words(slice) = words(text), false in general (the three _refuted lemmas) *)
-Theorem C20_wrap_words_preserved_partial : forall text width offset indent out,
-  text <> ""%string -> wrap text width offset indent = Ok out ->
-  exists first text2, wrap_head (repl_nlsp text) width offset = (Ok first, text2) /\
-    pywords out = (pywords first ++ pywords (sdrop (String.length first) (colon_sub text2)))%list.
-Proof. exact wrap_words_preserved_partial. Qed.
-Print Assumptions C20_wrap_words_preserved_partial.
-
-(* PARTIAL (width): the bound holds for the first line and for every line of every filled token the result is joined from *)
+(* PARTIAL (width): the bound holds for the first line and for every line of every filled token the result is joined from;
+   not re-expressed over result.split("\n") *)
 Theorem C20_wrap_width_bound_partial : forall text width offset indent out,
-  text <> ""%string -> wrap text width offset indent = Ok out ->
-  exists first text2, wrap_head (repl_nlsp text) width offset = (Ok first, text2) /\
-    first_ok (repl_nlsp text) width offset first /\
+  is_empty (wrap_prologue text) = false -> wrap text width offset indent = Ok out ->
+  exists first text2, wrap_head (repl_nlsp (wrap_prologue text)) width offset = (Ok first, text2) /\
+    first_ok (repl_nlsp (wrap_prologue text)) width offset first /\
     (out = strip first \/
      exists parts, out = rstrip_nl (first ++ sjoin nl1 parts) /\ Forall (part_ok width indent) parts).
 Proof. exact wrap_width_bound_partial. Qed.
 Print Assumptions C20_wrap_width_bound_partial.
 
-Theorem C20_wrap_tab_refuted : exists text width offset indent out,
-  offset < width /\ wrap text width offset indent = Ok out /\ pywords out <> pywords text.
-Proof. exact wrap_tab_refuted. Qed.
-Print Assumptions C20_wrap_tab_refuted.
+(* a comment of blanks only gives the empty string (before the fix: IndexError when the blank first line had to be broken) *)
+Theorem C20_wrap_blank : forall text width offset indent,
+  is_empty (wrap_prologue text) = true -> wrap text width offset indent = Ok ""%string.
+Proof. exact wrap_blank. Qed.
+Print Assumptions C20_wrap_blank.
 
-Theorem C20_wrap_leading_ws_refuted : exists text width offset indent out,
-  offset < width /\ contains tab text = false /\ wrap text width offset indent = Ok out /\ pywords out <> pywords text.
-Proof. exact wrap_leading_ws_refuted. Qed.
-Print Assumptions C20_wrap_leading_ws_refuted.
-
-Theorem C20_wrap_blank_first_line_refuted : exists text width offset indent,
-  offset < width /\ wrap text width offset indent = IndexErr.
-Proof. exact wrap_blank_first_line_refuted. Qed.
-Print Assumptions C20_wrap_blank_first_line_refuted.
-
-(* non-vacuity: an ordinary comment, its wrapped form, and the three witnesses lying outside first_line_safe *)
+(* non-vacuity: an ordinary comment; and the three former counterexamples (TAB, leading blanks, blank first line, all with a
+   first line that has to be broken) now come out with their words intact *)
 Example C20_wrap_example :
-  first_line_safe t_tab 12 0 = false /\ first_line_safe "  ab cd" 3 0 = false /\ first_line_safe "    " 3 0 = false /\
-  first_line_safe "The quick brown fox jumps over the lazy dog. The quick brown fox" 40 7 = true /\
   wrap "The quick brown fox jumps over the lazy dog. The quick brown fox" 40 7 4 =
     Ok (sx [84;104;101;32;113;117;105;99;107;32;98;114;111;119;110;32;102;111;120;32;106;117;109;112;115;32;111;118;101;114;10;
-            32;32;32;32;116;104;101;32;108;97;122;121;32;100;111;103;46;32;84;104;101;32;113;117;105;99;107;32;98;114;111;119;110;32;102;111;120]%N).
-Proof. exact first_line_safe_examples. Qed.
+            32;32;32;32;116;104;101;32;108;97;122;121;32;100;111;103;46;32;84;104;101;32;113;117;105;99;107;32;98;114;111;119;110;32;102;111;120]%N) /\
+  wrap (sx [97;9;98;32;99;99;99;99;32;100;100;100;100;32;101;101;101;101]%N) 12 0 0 =
+    Ok (sx [97;32;32;32;32;32;32;32;98;10;99;99;99;99;32;100;100;100;100;10;101;101;101;101]%N) /\
+  wrap "  ab cd" 3 0 0 = Ok (sx [97;98;10;99;100]%N) /\
+  wrap "    " 3 0 0 = Ok ""%string /\
+  is_empty (wrap_prologue "  ab cd") = false /\ is_empty (wrap_prologue "    ") = true.
+Proof. vm_compute. repeat split. Qed.
 Print Assumptions C20_wrap_example.
+
+(* ---- gapic.utils.rst.rst, plain path: the result can be placed inside r"""...""" ---- *)
+(* read as CPython's tokenizer reads the body of a raw triple-quoted literal (a backslash takes the next character with it,
+   three consecutive unescaped quotes end the literal): the literal does not end inside the text, and at the end of the
+   text no backslash is pending and no quote would join the closing ones; and the text ends neither in a backslash nor
+   in a double quote *)
+Theorem C20_rst_docstring_safe : forall text width indent nl_opt out,
+  rst text width indent nl_opt = Ok out ->
+  docstring_safe out /\ ends_with_c bs out = false /\ ends_with_c dq out = false.
+Proof. exact rst_plain_docstring_safe. Qed.
+Print Assumptions C20_rst_docstring_safe.
+
+(* the same for the tail of rst alone, which the pandoc path shares: for EVERY answer *)
+Theorem C20_rst_tail_safe : forall answer, docstring_safe (rst_tail answer).
+Proof. exact rst_tail_safe. Qed.
+Print Assumptions C20_rst_tail_safe.
+
+(* "no three consecutive quotes in the result" is false of the code as it is (five quotes come out as an escaped triple
+   followed by two quotes: the first of the last three is escaped, which is why the previous theorem still holds) *)
+Theorem C20_rst_no_triple_quote_substring_refuted : exists answer pre post,
+  rst_tail answer = (pre ++ String dq (String dq (String dq post)))%string.
+Proof. exact rst_no_triple_quote_substring_refuted. Qed.
+Print Assumptions C20_rst_no_triple_quote_substring_refuted.
+
+Example C20_rst_example :
+  rst (sx [85;115;101;32;34;34;34;116;114;105;112;108;101;34;34;34;32;97;110;100;32;67;58;92]%N) 72 4 None =
+    Ok (sx [85;115;101;32;92;34;92;34;92;34;116;114;105;112;108;101;92;34;92;34;92;34;32;97;110;100;32;67;58;92;32]%N) /\
+  rst "He said ""hello""" 72 4 None = Ok "He said ""hello"".".
+Proof. vm_compute. repeat split. Qed.
+Print Assumptions C20_rst_example.
 
 (* non-vacuity of the textwrap theorems and of the two regex-match theorems: concrete instances of their hypotheses *)
 Example C20_textwrap_example :
